@@ -147,7 +147,8 @@ func VerifC06StreamHandler() {
 	sctx, shutdown := context.WithCancel(context.Background())
 	s.ctx = sctx
 	// the server shuts down at the first heartbeat tick, i.e. once the handler has gone idle
-	rt.OnTick = func() { shutdown() }
+	idle := false
+	rt.OnTick = func() { idle = true; shutdown() }
 	// a local commit lands while the handler is busy writing the initial replication set
 	lateCommit := rt.Choose("commit.while.streaming", 2) == 1
 	final := primary
@@ -164,15 +165,24 @@ func VerifC06StreamHandler() {
 	filter := []string{"", "filter=db", "filter=other"}[rt.Choose("filter", 3)]
 	req := verifRequest("POST", "/stream", filter, "00000000000000AA", body.Bytes())
 	w := &verifRW{}
+	committedAt := 0
 	if lateCommit {
+		// ... at any of the handler's writes: inside a transaction file, before the ready frame, before the heartbeat
+		at := 1 + rt.Choose("commit.at.write", 24)
 		w.onWrite = func(n int) {
-			if n == 1 {
-				final = litefs.VerifCommitPage1(db)
+			if n == at && !idle { // (a commit after the handler went idle belongs to the next round)
+				if pos, ok := litefs.VerifCommitPage1(db); ok {
+					committedAt = n
+					final = pos
+				}
 			}
 		}
 	}
 	rt.NoHang(20000, func() { s.serveHTTP(w, req) })
 	rt.OnTick = nil
+	if lateCommit && committedAt == 0 {
+		rt.Assume(false) // the handler made fewer writes than the chosen index
+	}
 	before := litefs.VerifSnapshotState(store)
 	rt.Check(w.code == 200, "a well-formed stream request on the primary is accepted")
 
